@@ -61,6 +61,22 @@ def _objects(rng, n_random: int):
     return out, aliases
 
 
+def _spellings(aliases):
+    import numpy as np
+
+    S32, S64, I32 = np.float32, np.float64, np.int32
+    spellings = []
+    for sc in (S32, S64, I32, S32 | S64, S32 | I32):
+        written = np.ndarray[typing.Any, np.dtype[sc]]
+        for name in ("A_arr", "A_te", "NDArray"):
+            if name in aliases:
+                spellings.append((f"{name}[{sc!r}]", aliases[name][sc], written))
+    spellings.append(("A_fixed", aliases["A_fixed"], np.ndarray[typing.Any, np.dtype[np.float32]]))
+    spellings.append(("A_plain", aliases["A_plain"], np.ndarray))
+
+    return spellings
+
+
 class _Codec:
     """real typing objects <-> the prefix notation of lean/UnwrapRun.lean"""
 
@@ -179,15 +195,7 @@ def family(run, tier: str) -> None:
             run.samples.append({"op": case.line, "impl": f"{got_s} {got!r}"[:120], "model": (m or "")[:120], "tag": case.tag})
     # ---- at the level of the property: a model whose numpy base type is spelled through an alias is refused at class definition exactly
     # when the same model with the type written out is
-    S32, S64, I32 = np.float32, np.float64, np.int32
-    spellings = []
-    for sc in (S32, S64, I32, S32 | S64, S32 | I32):
-        written = np.ndarray[typing.Any, np.dtype[sc]]
-        for name in ("A_arr", "A_te", "NDArray"):
-            if name in aliases:
-                spellings.append((f"{name}[{sc!r}]", aliases[name][sc], written))
-    spellings.append(("A_fixed", aliases["A_fixed"], np.ndarray[typing.Any, np.dtype[np.float32]]))
-    spellings.append(("A_plain", aliases["A_plain"], np.ndarray))
+    spellings = _spellings(aliases)
 
     def define(base, cls_):
         with warnings.catch_warnings():
@@ -224,3 +232,63 @@ def family(run, tier: str) -> None:
     for k, v in kinds.items():
         run.dist["unwrap-" + k] += v
     run.coverage["unwrap_type_alias"] = {"objects": kinds, "model": "Gen.unwrapTypeAlias via lean/UnwrapRun.lean"}
+
+
+def forms(run, tier: str) -> None:
+    """C14: a base type spelled through an alias gives, in each of the three decorator forms, the outcome of the same declaration with the type written out
+    (decoration / class definition, one conforming and one violating value)"""
+    import dataclasses
+    import random
+
+    import numpy as np
+
+    import impl
+
+    dltype = impl.dltype
+    _, aliases = _objects(random.Random(0), 0)
+    n = 0
+
+    def outcome(kind, base, cls_, value):
+        X = typing.Annotated[base, cls_["a"]]
+        with warnings.catch_warnings():
+            warnings.simplefilter("ignore")
+            try:
+                if kind == "func":
+                    def f(x):
+                        return None
+                    f.__annotations__ = {"x": X}
+                    g = dltype.dltyped()(f)
+                elif kind == "nt":
+                    g = dltype.dltyped_namedtuple()(typing.NamedTuple("NT", [("x", X)]))
+                else:
+                    g = dltype.dltyped_dataclass()(dataclasses.make_dataclass("DC", [("x", X)]))
+            except dltype.DLTypeError as e:
+                return "decor " + type(e).__name__
+            except Exception as e:  # noqa: BLE001
+                return "decor pyexc " + type(e).__name__
+            try:
+                g(value)
+                return "ok"
+            except dltype.DLTypeError as e:
+                return "reject " + type(e).__name__
+            except Exception as e:  # noqa: BLE001
+                return "pyexc " + type(e).__name__
+
+    values = {"f32(3)": np.zeros((3,), np.float32), "f32(3,2)": np.zeros((3, 2), np.float32), "i32(3)": np.zeros((3,), np.int32)}
+    for label, spelled, written in _spellings(aliases):
+        for cname in ("Float32Tensor", "IntTensor", "TensorTypeBase"):
+            cls_ = getattr(dltype, cname)
+            for kind in ("func", "nt", "dc"):
+                for vname, v in values.items():
+                    a, b = outcome(kind, spelled, cls_, v), outcome(kind, written, cls_, v)
+                    n += 1
+                    case = Case(f"UNWRAPFORM\t{kind}\t{label}\t{cname}\t{vname}", "unwrap-forms")
+                    if a != b:
+                        run.findings.append(Finding("failing-input", "a declaration whose base type is spelled through an alias does not give the verdict of the same declaration with the type written out",
+                                                    case, a, "", b))
+                    if n % 97 == 0 and len(run.samples) < 14:
+                        run.samples.append({"op": case.line, "impl": a, "spec": b, "tag": case.tag})
+    run.n_cases += n
+    run.n_distinct_nontrivial += n
+    run.dist["unwrap-forms"] += n
+    run.coverage["alias_spelled_base_types"] = n
